@@ -30,14 +30,15 @@ class Projection:
         """
         tolerance1 = 1e-6
         umin, umax = curves[0].knotvector.limits
-        niter = 0
-        while True:
+        for niter in range(100):
             bezui = curves[0](initparam) - point
             dbezui = curves[1](initparam)
             ddbezui = curves[2](initparam)
             upper = np.inner(dbezui, bezui)
             lower = np.inner(ddbezui, bezui)
             lower += np.inner(dbezui, dbezui)
+            if lower == 0:  # Degenerated, like a segment of null lenght
+                break
             diff = upper / lower
             initparam -= diff
             if initparam < umin:
@@ -46,7 +47,7 @@ class Projection:
                 return (umax,)
             if np.abs(diff) < tolerance1:
                 return [initparam]
-            niter += 1
+        return (umin, umax)  # No convergence: the extremities are candidates
 
     @staticmethod
     def point_on_bezier(point: Tuple[float], bezier: Curve) -> Tuple[float]:
